@@ -188,6 +188,32 @@ def longlits(rng, n):
     return bytes(out[:n])
 
 
+def longlits2(rng, n):
+    """like longlits, but the literals come from a flat alphabet of 48..160 byte values: Huffman-compressible (so the block's literals are
+    decoded into the decoder's own literal buffer, which is SPLIT between the destination and its side buffer when they exceed 64 KiB), yet
+    almost free of accidental matches, so that the block carries only the handful (1..10) of long planted matches and the hand-over from
+    the destination-resident part to the side buffer falls among the LAST sequences of the block (the drain loop of the prefetching decoder)"""
+    BLK = 131072
+    out = bytearray()
+    while len(out) < n:
+        room = min(BLK - (len(out) % BLK), n - len(out))
+        A = rng.choice([48, 64, 100, 128, 160]); base = rng.randrange(256 - A + 1)
+        nseq = rng.choice([1, 2, 3, 4, 6, 8, 9, 10])
+        blk = bytearray(base + rng.randrange(A) for _ in range(room))
+        if len(out) + room > 2000:
+            # planted matches: spread over the block, most of them behind the 64 KiB mark of the literals
+            for _ in range(nseq):
+                ln = rng.choice([40, 60, 200, 1000])
+                at = rng.randrange(min(room - 1, 1000), room)
+                ln = min(ln, room - at)
+                hist = out + blk[:at]
+                if len(hist) > ln + 8 and ln >= 8:
+                    st = rng.randrange(len(hist) - ln)
+                    blk[at:at + ln] = hist[st:st + ln]
+        out += blk
+    return bytes(out[:n])
+
+
 def subtail(rng, nblocks):
     """128 KiB blocks made of one or two long copies of earlier data followed by a short incompressible tail holding a single short match;
     the next block starts by re-using that match's distance. With ZSTD_c_targetCBlockSize the tail becomes a raw sub-block whose
